@@ -518,6 +518,13 @@ func midVals() []int {
 			out = append(out, v)
 		}
 	}
+	// marker codes a stray byte can turn a marker into (SOI, EOI, SOS, SOFn, DHT, DQT, DRI, SOF55, LSE, J2K SOC..EPH)
+	for _, v := range []int{0xD8, 0xD9, 0xDA, 0xC0, 0xC1, 0xC3, 0xC4, 0xDB, 0xDD, 0xF7, 0xF8, 0x4F, 0x51, 0x52, 0x5C, 0x90, 0x93, 0x92} {
+		if !seen[v] {
+			seen[v] = true
+			out = append(out, v)
+		}
+	}
 	for v := 5; v < 256; v += 6 {
 		if !seen[v] {
 			seen[v] = true
